@@ -608,6 +608,8 @@ def _pymath_call(f, args, trace):
     if f == "fmod":
         b = args[1]
         q = math.trunc(a.v / b.v)
+        if abs(a.v / b.v - round(a.v / b.v)) < 1e-9 and a.v != 0.0:
+            trace.append(("ambiguous", "fmod at a multiple of the divisor"))
         trace.append(("fmod", q))
         return a - b * float(q)
     raise ValueError("unknown pymath function " + f)
